@@ -11,6 +11,7 @@ def run(ctx: Ctx) -> None:
     t2_rot.run_quaternion(ctx)
     t2_rot.run_quaternion_log(ctx)
     t2_rot.run_angle_axis(ctx)
+    t2_rot.run_quaternion_angle_axis(ctx)
     t2_rot.run_accessors(ctx)
     ctx.floor("T8.accessors", 20)
     ctx.floor("T2.euler-matrix", 49)
@@ -19,6 +20,7 @@ def run(ctx: Ctx) -> None:
     ctx.floor("T6.apply", 30)
     ctx.floor("T7.quat-log-exp", 6)
     ctx.floor("T7.angle-axis", 5)
+    ctx.floor("T7.quat-angle-axis", 7)
     ctx.floor("T7.matrix-to-quat", 4)
 
 
@@ -54,6 +56,10 @@ def mutants(prog):
         ("quaternion exp: scalar part sine", K, "quaternion_log_to_exp", "quaternion_scalar: torch.Tensor = torch.cos(norm_q)", "quaternion_scalar: torch.Tensor = torch.sin(norm_q)", "T7.quat-log-exp"),
         ("angle-axis: first-order branch of the inverse rotation", K, "angle_axis_to_rotation_matrix", "torch.cat([k_one, -rz, ry, rz, k_one, -rx, -ry, rx, k_one], dim=1)", "torch.cat([k_one, rz, -ry, -rz, k_one, rx, ry, -rx, k_one], dim=1)", "T7.angle-axis"),
         ("angle-axis: sense of rotation", K, "angle_axis_to_rotation_matrix", "r10 = wz * sin_theta + wx * wy * (k_one - cos_theta)", "r10 = -wz * sin_theta + wx * wy * (k_one - cos_theta)", "T7.angle-axis"),
+        ("quaternion to rotation vector: negative scalar part not folded", K, "quaternion_to_angle_axis", "torch.where(cos_theta < 0.0, torch.atan2(-sin_theta, -cos_theta), torch.atan2(sin_theta, cos_theta))", "torch.atan2(sin_theta, cos_theta)", "T7.quat-angle-axis"),
+        ("rotation vector to quaternion: full angle", K, "angle_axis_to_quaternion", "half_theta: torch.Tensor = theta * 0.5", "half_theta: torch.Tensor = theta", "T7.quat-angle-axis"),
+        ("homogeneous_matmul: second operand cast to the first operand's integer dtype", L, "homogeneous_matmul", "b, b_type = as_homogeneous_tensor(b, dtype=dtype)", "b, b_type = as_homogeneous_tensor(b, dtype=args[0].dtype)", "integer operand"),
+        ("hmm: result cast back to the first operand's dtype", L, "hmm", "return as_homogeneous_matrix(c)", "return as_homogeneous_matrix(c, dtype=b.dtype)", "integer operand"),
     ]
     for name, mod, fn, old, new, expect in specs:
         ov = source_sub(prog, mod, fn, old, new)
